@@ -369,7 +369,7 @@ class Explorer:
                     collect(x)
         for v in s.mem.values():
             collect(v)
-        for k in [k for k in s.ghost if isinstance(k, tuple) and k[0] in ('def', 'snprintf', 'byte', 'arr')]:
+        for k in [k for k in s.ghost if isinstance(k, tuple) and k[0] in ('def', 'snprintf', 'byte', 'arr', 'arrterm')]:
             del s.ghost[k]
         for v in s.ghost.values():
             collect(v)
